@@ -1,7 +1,8 @@
 (* Single entry point of the extracted model: one request in, one reply out,
    both generic wire values (Base/Sx.v).  A request is (op arg ...). *)
 From Coq Require Import ZArith List Bool.
-From Mistletoe Require Import Base.Sx Model.SpanTokenizer.
+From Mistletoe Require Import Base.Sx Base.PyStr Model.SpanTokenizer Model.Tree Model.TreeWire
+  Model.HtmlRenderer Spec.HtmlSpec.
 Import ListNotations.
 Local Open Scope Z_scope.
 
@@ -23,8 +24,29 @@ Definition op_tokenize (req : sx) : sx :=
   let cands := map cand_of_sx (l_of_sx (sx_nth req 2)) in
   SxL (map sx_of_otok (tokenize cands len)).
 
+(* ---- X-html : HtmlRenderer.render on a wire tree ---- *)
+Definition hopts_of (req : sx) : hopts := mkHopts (bool_of_sx (sx_nth req 1)) (bool_of_sx (sx_nth req 2)).
+Definition op_html (req : sx) : sx :=
+  sx_of_str (render_html (hopts_of req) (tok_of_sx (sx_nth req 3))).
+
+(* ---- X-str : the escaping helpers ---- *)
+Definition op_str (req : sx) : sx :=
+  let o := mkHopts (bool_of_sx (sx_nth req 2)) (bool_of_sx (sx_nth req 3)) in
+  let s := str_of_sx (sx_nth req 4) in
+  sx_of_str (match z_of_sx (sx_nth req 1) with
+             | 0 => html_escape s
+             | 1 => escape_url s
+             | 2 => escape_html_text o s
+             | _ => s
+             end).
+
+Definition op_check_html (req : sx) : sx := SxZ (check_html (str_of_sx (sx_nth req 1))).
+
 Definition dispatch (req : sx) : sx :=
   match z_of_sx (sx_nth req 0) with
   | 16 => op_tokenize req
+  | 8 => op_html req
+  | 80 => op_str req
+  | 81 => op_check_html req
   | _ => SxL [SxZ (-1)]
   end.
